@@ -28,6 +28,7 @@
 #include <signal.h>
 #include <setjmp.h>
 #include <unistd.h>
+#include <sys/time.h>
 #include <algorithm>
 #include <string>
 #include <vector>
@@ -676,16 +677,24 @@ static int nth_set(uint64_t m, int64_t j)
 }
 
 // ------------------------------------------------------------------ watchdog
-// A corrupted map can make a library call spin for ever. Workers have no other watchdog, so every run arms a
-// real-time alarm (a run takes well under a millisecond); when it fires the run is abandoned where it is
-// (the map is leaked, the worker is recycled after any violation) and reported as a hang.
-#define WATCHDOG_S 20
+// A corrupted map can make a library call spin for ever, and workers have no other watchdog. Every run arms a
+// CPU-time timer (user time of this process, so machine load does not matter; a run needs well under a
+// millisecond). When it fires the run is abandoned where it is (the map is leaked; a worker is recycled after
+// any violation) and reported as a hang.
+#define WATCHDOG_CPU_S 2
 static sigjmp_buf g_wd_jmp;
 static volatile sig_atomic_t g_wd_armed;
 static volatile size_t g_cur_op;
 static void wd_handler(int)
 {
 	if (g_wd_armed) { g_wd_armed = 0; siglongjmp(g_wd_jmp, 1); }
+}
+static void wd_timer(int seconds)
+{
+	struct itimerval tv;
+	memset(&tv, 0, sizeof tv);
+	tv.it_value.tv_sec = seconds;
+	setitimer(ITIMER_VIRTUAL, &tv, NULL);
 }
 
 // ------------------------------------------------------------------ interpreter
@@ -695,26 +704,24 @@ static void run(const char *, const RunSpec &spec)
 	struct sigaction sa, old;
 	memset(&sa, 0, sizeof sa);
 	sa.sa_handler = wd_handler;
-	sigaction(SIGALRM, &sa, &old);
-	unsigned prev = alarm(0);
+	sigaction(SIGVTALRM, &sa, &old);
 	if (sigsetjmp(g_wd_jmp, 1) == 0) {
 		g_wd_armed = 1;
-		alarm(WATCHDOG_S);
+		wd_timer(WATCHDOG_CPU_S);
 		run_plan(spec);
 		g_wd_armed = 0;
-		alarm(0);
+		wd_timer(0);
 	} else {
-		alarm(0);
+		wd_timer(0);
 		char site[64];
 		snprintf(site, sizeof site, "op:%s[%s]",
 			 g_cur_op < spec.plan.ops.size() ? op_names[spec.plan.ops[g_cur_op].kind % K_N] : "end-of-run-checks", impl_names[R.impl]);
-		fail("hang:wallclock", site, "op %zu: the run did not finish within %d s of real time (a run normally takes under a millisecond)",
-		     (size_t)g_cur_op, WATCHDOG_S);
+		fail("hang:cpu-time", site, "op %zu: the run was still executing after %d s of CPU time (a run normally needs under a millisecond)",
+		     (size_t)g_cur_op, WATCHDOG_CPU_S);
 		result().steps = spec.plan.ops.size();
 		result().fingerprint = result().ev_hash;
 	}
-	sigaction(SIGALRM, &old, NULL);
-	if (prev) alarm(prev);
+	sigaction(SIGVTALRM, &old, NULL);
 }
 
 static void run_plan(const RunSpec &spec)
